@@ -60,7 +60,7 @@ func classCall(cl int, variant int) Call {
 		c.Line++
 	case 3: // other directory, same base name
 		c.RemoteSrcPath = "/zz" + c.RemoteSrcPath
-		c.init(c.RemoteSrcPath, c.Line)
+		setSrc(&c, c.RemoteSrcPath, c.Line)
 		// keep the class
 	}
 	return c
@@ -181,13 +181,20 @@ func countMain(s *Signature) int {
 	return n
 }
 
+// sigLess is the comparator under test; installed by order_less_test.go (a separate
+// file so that a renamed method only costs the law part of this check).
+var sigLess func(a, b *Signature) bool
+
 func safeLess(a, b *Signature) (res bool, panicked string) {
 	defer func() {
 		if e := recover(); e != nil {
 			panicked = fmt.Sprint(e)
 		}
 	}()
-	return a.less(b), ""
+	if sigLess == nil {
+		return false, ""
+	}
+	return sigLess(a, b), ""
 }
 
 func TestVerifC13(t *testing.T) {
@@ -204,6 +211,9 @@ func TestVerifC13(t *testing.T) {
 	if rv := r.ReplayFile(); rv != nil {
 		t.Logf("replay of %s: %s\nexpected: %s\nobserved: %s", rv.Key, rv.Summary, rv.Expected, rv.Observed)
 		return
+	}
+	if sigLess == nil {
+		r.Note("Signature.less is not bound in this tree: the comparator-law part is skipped, the end-to-end part runs")
 	}
 	// precompute the relation
 	lt := make([][]bool, n)
@@ -226,7 +236,7 @@ func TestVerifC13(t *testing.T) {
 		r.Report(&h.Viol{Fingerprint: "C13/" + fp, Summary: msg + ": " + strings.Join(names, " ; "), Key: fmt.Sprintf("%s %v", fp, idx), Kind: "law", Extra: map[string]any{"signatures": names}, Reproduced: 5})
 	}
 	// laws
-	for a := 0; a < n; a++ {
+	for a := 0; a < n && sigLess != nil; a++ {
 		if !r.MineIdx(a) {
 			continue
 		}
